@@ -3,7 +3,7 @@
   the command-level model (`cmd …`), each answering with the Code reply, the Spec reply, the
   deviation tags and the states, one line per request.
 
-  Scores: `ninf` | `pinf` | `nan` | decimal order key.  Members/keys: hex.  Entries `member:score`,
+  Scores: `ninf` | `pinf` | `nan` | `nz` (-0.0) | decimal order key (`0` is +0.0).  Members/keys: hex.  Entries `member:score`,
   lists joined by `,`, `.` = empty.  `cfg <fixedRange> <fixedZadd> <fixedZincr>` selects the model variant that
   corresponds to the tree under test (lib/c04.py reads it off the Rust source).
 -/
@@ -25,12 +25,14 @@ def showScore : CScore → String
   | .nan => "nan"
   | .num .ninf => "ninf"
   | .num .pinf => "pinf"
+  | .num .nzero => "nz"
   | .num (.fin k) => toString k
 
 def parseScore (s : String) : Option CScore :=
   if s == "nan" then some .nan
   else if s == "ninf" then some (.num .ninf)
   else if s == "pinf" then some (.num .pinf)
+  else if s == "nz" then some (.num .nzero)
   else s.toInt?.map fun k => .num (.fin k)
 
 def showEnt (e : CEntry) : String := toHex e.2 ++ ":" ++ showScore e.1
